@@ -164,6 +164,8 @@ class Sim(object):
         self.fair_after_stop = True
         self._starve = {}
         self.rootdir = None       # for relative path labels
+        import os as _os
+        self._realpid = str(_os.getpid())
         # scheduling knobs (drawn here so that they are part of the choice list)
         d = choices.draw
         if strategy is None:
@@ -228,8 +230,12 @@ class Sim(object):
     def rel(self, path):
         path = str(path)
         if self.rootdir and path.startswith(self.rootdir):
-            return path[len(self.rootdir):].lstrip("/")
-        return path.rsplit("/", 1)[-1]
+            path = path[len(self.rootdir):].lstrip("/")
+        else:
+            path = path.rsplit("/", 1)[-1]
+        if self._realpid in path:       # a real pid must never enter the trace
+            path = path.replace(self._realpid, "PID")
+        return path
 
     def request_storm(self, tasks, window=12):
         """Buggify: fire the pending timeouts of `tasks` back to back (each runs
